@@ -97,3 +97,70 @@ claim('C18', 'Lean 4 theorems on a protocol model of temporary files whose order
       "journal/evtx sources in a private TMPDIR; leftovers must equal the model's prediction and be zero. Promptness is measured: known finding F15.",
       TB + "Runtime behaviour the model cannot exhibit: OS signal delivery, process exit, tempfile/ctrlc internals; which worker step coincides with the signal is arranged by sleeps.",
       "DESIGN.md §6 C18")
+
+claim('C15', 'Lean 4 theorems on a walk/expansion model over the proved classification model, with jwalk flags regenerated from the source; in-process differential correspondence of process_path; directory-vs-explicit-vs-stdin oracle on the binary',
+      "Machine-checked: the walk lists files in strict component-wise path order (not the byte order of joined strings: proved), is a permutation of all files of the tree now that the "
+      "source asks jwalk to include hidden entries (C15_full_holds unfolds the regenerated flag; the skipped-hidden counter-model documents the defect repaired by this work), expanding a "
+      "directory equals expanding the explicit sorted list of its kept files with identical types, a named file is always attempted, '-' splices stdin lines in place, PathIds follow list "
+      "order. Tie: real process_path on ~2000 generated trees (dot-names, non-UTF-8 names, links) per run; s4 DIR vs explicit list vs stdin forms on generated trees. Known findings F18-F20.",
+      TB + "jwalk behaviour as read from its source; std::fs::canonicalize; tar member enumeration is outside the model.",
+      "DESIGN.md §6 C15")
+
+claim('C13', 'Lean 4 theorems on a byte-level model of the 24 print variants and the coordinator\'s separator/newline writes; model-vs-binary stdout correspondence over the option matrix; strip oracle',
+      "Machine-checked: with no options the output is the message bytes; for every kind and colour setting each line is file field ++ datetime field ++ line (C13_field_order_full_holds, after the "
+      "repair of the one swapped variant; counter-model kept); removing escapes and fields recovers the payload (text logs, accounting records; event/journal payloads that end in a newline, "
+      "necessity proved); exactly one separator after each message; aligned names pad to the common width for one-column characters (wide characters: F9). Tie: the model renders "
+      "384+ option combinations per run from the undecorated run, the independently computed datetime strings and the palette parsed from the source, and must equal the binary's stdout byte for byte.",
+      TB + "chrono strftime formatting, termcolor escapes and unicode-width are outside the model (F17 lives there); multi-part lines are not modelled.",
+      "DESIGN.md §6 C13")
+
+claim('C19', 'Lean 4 theorems on the accounting model of processing_loop/SummaryPrinted; stderr-summary-vs-model-vs-stdout correspondence on the binary',
+      "Machine-checked over any sequence of printed messages: accounted bytes = length of stdout with escapes removed (= literal stdout length with --color never), per-file bytes + "
+      "separators + added newlines = total, message counts per kind exact, lines = lines of text-log messages, first/last = min/max printed instants. The unconditional byte statement is false with "
+      "colour (F6, proved). Tie: each run is made with and without --summary; stdout must be identical, and the parsed totals/per-file numbers/first-last/-a -b echo must equal the model's and the bytes on stdout.",
+      TB + "`flushed` counters and the layout of the summary text are not modelled (parsers key on the labels).",
+      "DESIGN.md §6 C19")
+
+claim('C14', 'Lean 4 theorems on a model of process_dt / the relative-offset matcher / -a -b resolution over tables regenerated from the source (76 patterns, regex pieces and anchors, 392 zones); H2 evaluation-mode correspondence (70k values per run) and --summary oracle',
+      "Machine-checked: relative forms [@]?[+-](N u)+ resolve to sign x sum of units (any order; repeated unit: last wins), '@' bounds resolve relative to the other bound exactly as the explicit "
+      "instant would, both-'@' and after>before are rejected, ambiguous zone names are rejected, with the anchors now present in the source every string outside the relative grammar is refused "
+      "by the relative branch (the unanchored counter-model documents the defect repaired by this work); every one of the 76 pattern rows resolves its representative value to the documented "
+      "instant through its own row and through first-match (decided over the whole table), per-specifier round trips are proved. The general all-values statement per row is NOT proved "
+      "(staged). '+epoch' is only correct at --tz-offset +00:00 (F21, proved). Tie: the real process_dt/string_wdhms_to_duration/cli_process_tz_offset are evaluated in-process (H2) on the "
+      "enumerated grammar plus near-miss mutants and compared with the model; 354 real runs compare --summary's resolved bounds and exit status with resolveAB.",
+      TB + "chrono parse_from_str and the regex crate are mirrored by hand for the specifiers/constructs that occur (validated by the 70k-value correspondence).",
+      "DESIGN.md §6 C14")
+
+claim('C05', 'Lean 4 theorems on the per-container block-assembly loops (all chunkings) with loop shapes and buffer sizes regenerated from the source; in-process BlockReader correspondence on self-built containers; plain-vs-container oracle on the binary',
+      "Machine-checked for every block size, every byte string (empty, 1 byte, exact multiples) and every decoder chunking: gz, bz2, xz, tar and the temp-file extraction assemble exactly the "
+      "plain file's blocks and learn its size; a streamed reader asked in non-decreasing order answers like the plain reader; the look-back depth as coded is 0 (proved, with the "
+      "'one block behind' counter-model); the xz extra empty block is never returned. lz4 assembles correctly only if every read fills the buffer - false in general (F22, proved and "
+      "reproduced). Tie: real BlockReader on containers built in the harness (gz levels/flush points, xz, lz4 frames, tar variants, python bz2/pax) under several request orders; the binary on plain vs packed text "
+      "logs, accounting files, the evtx sample and a journal, with and without windows. Known findings F22-F24.",
+      TB + "flate2, bzip2-rs, lz4_flex, lzma-rs, tar decode correctly (F23 is a decoder failure); real chunk sizes are not observed (the theorem covers all chunkings).",
+      "DESIGN.md §6 C05")
+
+claim('C17', 'Lean 4 theorems on a retained-data counting model with drop rules regenerated from the source; --summary high-water-mark oracle on files growing x10',
+      "Machine-checked: a gz/bz2/lz4 reader under non-decreasing requests holds at most one block (blocks high <= 2) whatever the file size; the steady-state bound for retained lines/blocks is "
+      "FALSE in three families (multi-block messages with a lagging consumer; block-aligned lines on plain files), shown by kernel evaluation of the model and matching the binary "
+      "(F8, F25); the bounded case is checked at instances only (not proved in general: partial). Tie: high-water marks from --summary on generated files growing x10 at the default and small "
+      "block sizes, plain and compressed.",
+      TB + "Runtime behaviour the model cannot exhibit: allocator, real RSS; which messages the consumer still holds depends on scheduling.",
+      "DESIGN.md §6 C17")
+
+claim('C04', 'Lean 4 theorems on calendar arithmetic, the capture-normalisation model and tables regenerated from the source (173 pattern rows, 37 field sets, 392 zones, month names); in-process correspondence of bytes_to_regex_to_datetime (8.5k rendered lines per run) and probe-log oracle',
+      "Machine-checked: days-from-civil and its inverse round-trip for all Int dates and are strictly monotone; for every generated field set, canonical buffer pieces parse to the denoted instant "
+      "(zone-less and ambiguous zones read in the fallback zone); notation forms map to canonical pieces (day/month/hour forms, 1-9 fraction digits kept as written, 10-12 truncated, named zones, "
+      "year fill); every zone-table value is a well-formed offset within 14 h and case variants agree (decided over the whole table, and compared with a committed snapshot); every pattern row starts "
+      "at column 0. Epoch notations are only right at offset 0 (F26, proved). Regex capture and pattern precedence are NOT theorems: every row is rendered at boundary instants and sent through "
+      "the real regex+normalise+chrono pipeline and compared with the model's instant. Known findings F26-F28.",
+      TB + "regex (which substrings the 173 patterns capture, which row wins) and chrono parse are validated differentially only; numeric-offset scanning is proved at instances.",
+      "DESIGN.md §6 C04")
+
+claim('C11', 'Lean 4 theorems on a model of process_missing_year with the 25 h threshold regenerated from the source; end-to-end oracle on generated year-less logs across year boundaries, mtimes, containers and windows',
+      "Machine-checked: the last message gets the mtime's year; under the property's own exclusions (no 29 February, gaps under a year, time running back at most 25 h) every message gets its "
+      "true year; resulting dates never step back more than 25 h (unconditional); with --dt-after exactly the messages down to the first one before A are re-dated; the 29-February counterexample is "
+      "proved. Tie: generated RFC 3164 logs spanning 0-4 year boundaries x mtimes (file, gzip header, tar member) x zones x windows x containers x block sizes through the binary, printed years "
+      "compared with the generator's true dates and with the model.",
+      TB + "calendar model proved; chrono trusted for parsing; per-container mtime source checked end to end only.",
+      "DESIGN.md §6 C11")
